@@ -209,6 +209,26 @@ pub fn generate(tier: &str, rng: &mut Prng) -> Vec<Case> {
         let stream = rng.bytes(17 * 12);
         ops.push(Case::new(format!("sampler_z {} {} {} {}", f(0.0), f(1.43300980528773), f(1.43300980528773 - 0.001), hex(&stream))));
     }
+    // the leaf arm of ffsampling (two samples per leaf, centre and width handed over unchanged): centres a hair below /
+    // above an integer, where any rounding of the centre on the way to the sampler changes floor(mu)
+    for i in 0..(if thorough { 4000 } else { 400 }) {
+        let n = if i % 2 == 0 { 512 } else { 1024 };
+        let sigmin = if n == 512 { sigmin512 } else { sigmin1024 };
+        let sigma = sigmin + (SIGMA_MAX - sigmin) * (rng.below(1 << 20) as f64 / (1u64 << 20) as f64);
+        let mut centre = |rng: &mut Prng| -> f64 {
+            let k = *rng.pick(&[0i64, 1, -1, 2, 100, -100, 511, 512, -512, 1000, 4095, -4096]) as f64;
+            let e = 2f64.powi(-(rng.range(8, 44) as i32));
+            match rng.below(4) {
+                0 => k - e,
+                1 => k + e,
+                2 => k + 1.0 - e,
+                _ => k + rng.below(1 << 30) as f64 / (1u64 << 30) as f64,
+            }
+        };
+        let (t0, t1) = (centre(rng), centre(rng));
+        let stream = rng.bytes(17 * 24);
+        ops.push(Case::new(format!("ffs_leaf {n} {} {} {} {}", f(t0), f(t1), f(sigma), hex(&stream))));
+    }
     // known finding F7: centres beyond the i16 range of the result
     ops.push(Case::new(format!("sampler_z {} {} {} {}", f(40000.0), f(1.7), f(sigmin512), hex(&vec![0u8; 17 * 4]))));
     ops.push(Case::new(format!("sampler_z {} {} {} {}", f(-40000.0), f(1.7), f(sigmin512), hex(&vec![0u8; 17 * 4]))));
@@ -274,6 +294,28 @@ pub fn oracle(op: &[&str], out: &str) -> Verdict {
                         Verdict::Pass
                     } else {
                         Verdict::Fail(format!("SamplerZ = {z} after {pos} bytes, implementation {out}"))
+                    }
+                }
+            }
+        }
+        "ffs_leaf" => {
+            if out.starts_with("PANIC") {
+                return fail_panic("ffsampling (leaf)");
+            }
+            let n: usize = op[1].parse().unwrap();
+            let sigmin = if n == 512 { 1.2778336969128337 } else { 1.298280334344292 };
+            let (t0, t1, sigma) = (fbits(op[2]), fbits(op[3]), fbits(op[4]));
+            let stream = unhex(op[5]);
+            let want = ref_sampler_z(t0, sigma, sigmin, &stream).and_then(|(z0, p0)| {
+                ref_sampler_z(t1, sigma, sigmin, &stream[p0..]).map(|(z1, p1)| format!("{z0} {z1} {}", p0 + p1))
+            });
+            match want {
+                None => Verdict::NotApplicable,
+                Some(w) => {
+                    if out == w {
+                        Verdict::Pass
+                    } else {
+                        Verdict::Fail(format!("the leaf of ffsampling must return SamplerZ(t0), SamplerZ(t1) = {w}, implementation {out}"))
                     }
                 }
             }
